@@ -25,7 +25,7 @@ where a first version of a check was strengthened because of the seeded change.
 sub-agents after the checks had been strengthened for the round before); %d were missed by the check as it was
 when the change arrived, every one of those led to a stronger generator or oracle (and six of them to the discovery
 of genuine defects of the unchanged tree, e.g. the MTZ reader overflows, the neighbour-search face defect and the
-two recipe defects of C18), and all %d are caught by the committed checks.
+two recipe defects of C18), and all %d were caught by the checks when they were recorded (`verif_result` in each `meta.json`). Because later generator changes shift the random streams, a regression over the kept changes (`tools/run_all_seeded.sh`) was re-run at the end of the last session for the properties whose generators changed most - C01, C02, C03, C06, C07, C08, C12 and C13: all 101 kept changes of these properties still make their quick check fail.
 
 | id | change | needs, to manifest | result |
 |---|---|---|---|
